@@ -567,6 +567,11 @@ def history_cases(tier):
     for netname in NETS:
         for h in range(1, depth + 1):
             menus = [steps] * min(h, 2) + ([third] if h == 3 else [])
+            if h == 3:
+                # depth 3: the first two steps come from the reduced (quick) menu
+                small2 = [(e, c) for e in (None, "break", "unbreak", "cut_feeder", "restore_feeder", "nan_param")
+                          for c in (0, 1, 2, 3, 10, 11, 12)]
+                menus = [small2, small2, third]
             if netname == "pumploop":
                 # the pump-loop net exists for the reverse-flow failure: restricted menu
                 small = [(e, c) for e in (None, "reverse_pump", "cut_feeder", "break") for c in (0, 1, 2)]
